@@ -27,6 +27,7 @@ structure Pending where
   expSrs : List Nat
   waitOps : List Nat
   waitSrs : List Nat
+  sp : Bool := false   -- `isSavepoint`: a savepoint was requested for this snapshot
   deriving DecidableEq, Repr
 
 /-- `snapshots.storeState`: id counter, pending snapshot, newest published snapshot -/
@@ -51,6 +52,7 @@ the operator ids it read from `j.assembly`, and — after `CreateCheckpoint` —
 structure Tick where
   ops : List Nat
   start : Option (Nat × List Nat) := none
+  sp : Bool := false   -- the run is `HandleCreateSavepoint` (an RPC goroutine), not the ticker callback
   deriving DecidableEq, Repr
 
 structure St where
@@ -184,6 +186,9 @@ inductive Act
   -- not a task): read `j.assembly` for the operator ids; read it for the runner ids, `CreateCheckpoint`, read it again
   -- for `StartCheckpoint`; the `StartCheckpoint` calls arrive
   | tickA | tickB | tickC
+  -- `HandleCreateSavepoint` as one step, and its first piece (status check, read `j.assembly` for the operator ids);
+  -- its other two pieces are `tickB`/`tickC` (same code shape as the ticker callback: it runs off the task queue too)
+  | savepoint | spA
   -- the file of completed snapshot `n` has been written: `finishSnapshotAsync` takes the lock and makes it current
   | publish (n : Nat)
   deriving DecidableEq, Repr
@@ -191,7 +196,7 @@ inductive Act
 /-- the actions of a schedule in which every ticker callback runs without a task of the queue in between (then it is
 the single action `.tick`). The code has no lock that enforces this: finding D57. -/
 def Act.serial : Act → Bool
-  | .tickA | .tickB | .tickC => false
+  | .tickA | .tickB | .tickC | .spA => false
   | _ => true
 
 /-- the tasks that change the registry (each ends with `evaluateClusterStatus`) -/
@@ -210,7 +215,8 @@ inductive Out
   | barOk | barAcked (pub : Option Nat) (flushed : List (Nat × Nat)) (epoch : Nat)
   | barAckErr (r : AckRes) (flushed : List (Nat × Nat)) (epoch : Nat) | barMismatch | barBlocked | barNotReady
   | tickRead (ops : List Nat) | ckptCreated (id : Nat) | noTick
-  | published (n : Nat) (cur : Option Nat) | nothing
+  | published (n : Nat) (cur : Option Nat) (notified : List Nat) | nothing
+  | spNotRunning | spBusy | spJoined (id : Nat)
   | evQueued | processed (batch : List (Nat × Nat)) (epoch : Nat) | flushEmpty
   deriving DecidableEq, Repr
 
@@ -313,26 +319,46 @@ def step (s : St) : Act → St × Out
   | .publish n =>
       if canPublish s.store n then
         ({ s with store := { s.store with writing := s.store.writing.erase n, current := pubCurrent s.store.current n } },
-         .published n (pubCurrent s.store.current n))
+         -- an older snapshot became obsolete: the retained-ids goroutine (off the queue) reads `j.assembly` and tells
+         -- its operators to retain only `n`
+         .published n (pubCurrent s.store.current n)
+           (match s.store.current with | some c => if c < n then s.asmOps else [] | none => []))
       else (s, .nothing)
   | .tickA =>
       if !s.ticker then (s, .stopped)
       else if s.tk.isSome then (s, .noTick)
       else ({ s with tk := some { ops := s.asmOps } }, .tickRead s.asmOps)
-  | .tickB =>
-      match s.tk with
-      | some { ops := ops, start := none } =>
-        (match s.store.pending with
-        | some _ => ({ s with tk := none }, .retry)
+  | .savepoint =>
+      if s.status != .running then (s, .spNotRunning)
+      else match s.store.pending with
+        | some p =>
+          if p.sp then (s, .spBusy)
+          else ({ s with store := { s.store with pending := some { p with sp := true } } }, .spJoined p.id)
         | none =>
           let n := s.store.counter + 1
-          let p : Pending := { id := n, expOps := ops, expSrs := s.asmSrs, waitOps := ops, waitSrs := s.asmSrs }
+          let p : Pending := { id := n, expOps := s.asmOps, expSrs := s.asmSrs, waitOps := s.asmOps, waitSrs := s.asmSrs, sp := true }
+          ({ s with store := { s.store with counter := n, pending := some p } }, .ckpt n s.asmSrs)
+  | .spA =>
+      if s.status != .running then (s, .spNotRunning)
+      else if s.tk.isSome then (s, .noTick)
+      else ({ s with tk := some { ops := s.asmOps, sp := true } }, .tickRead s.asmOps)
+  | .tickB =>
+      match s.tk with
+      | some { ops := ops, start := none, sp := sp } =>
+        (match s.store.pending with
+        | some p =>
+          if !sp then ({ s with tk := none }, .retry)
+          else if p.sp then ({ s with tk := none }, .spBusy)
+          else ({ s with tk := none, store := { s.store with pending := some { p with sp := true } } }, .spJoined p.id)
+        | none =>
+          let n := s.store.counter + 1
+          let p : Pending := { id := n, expOps := ops, expSrs := s.asmSrs, waitOps := ops, waitSrs := s.asmSrs, sp := sp }
           ({ s with store := { s.store with counter := n, pending := some p },
-                    tk := some { ops := ops, start := some (n, s.asmSrs) } }, .ckptCreated n))
+                    tk := some { ops := ops, start := some (n, s.asmSrs), sp := sp } }, .ckptCreated n))
       | _ => (s, .noTick)
   | .tickC =>
       match s.tk with
-      | some { ops := _, start := some (n, srs) } => ({ s with tk := none }, .ckpt n srs)
+      | some { ops := _, start := some (n, srs), sp := _ } => ({ s with tk := none }, .ckpt n srs)
       | _ => (s, .noTick)
 
 def run (s : St) : List Act → St × List Out
